@@ -100,6 +100,9 @@ class Network:
     def sendto(self, tr, data, addr):
         """client -> spa"""
         self.log.append((self.loop.time(), "c>s", data))
+        hook = getattr(self, "on_client_datagram", None)
+        if hook is not None:
+            hook(data)
         if self._drop(data, outbound=True):
             self.dropped += 1
             return
